@@ -703,7 +703,7 @@ impl XGen {
 
     pub fn pred(&self, r: &mut Rng, depth: usize, positional_ok: bool) -> Expr {
         // language tests on whatever the step selected (nearest xml:lang wins; nested and shadowing declarations are generated)
-        if self.funcs.contains(&"lang") && r.chance(1, 14) { return Expr::Func("lang".into(), vec![Expr::Lit(r.pick_s(&["en", "EN", "de", "fr", "e", ""]).to_string())]); }
+        if self.funcs.contains(&"lang") && r.chance(1, 14) { return Expr::Func("lang".into(), vec![Expr::Lit(r.pick_s(&["en", "EN", "de", "fr", "e", "", "fr-e", "\u{65e5}", "\u{e9}", "enx", "f"]).to_string())]); }
         match r.below(10) {
             0 | 1 if positional_ok => Expr::Num(r.pick_s(&["1", "2", "3", "1.5", "0"]).to_string()),
             2 if positional_ok => Expr::Bin(*r.pick(&[Op::Eq, Op::Lt, Op::Ge, Op::Ne]), Box::new(Expr::Func("position".into(), vec![])), Box::new(if r.chance(1, 2) { Expr::Func("last".into(), vec![]) } else { Expr::Num(r.pick_s(&["1", "2"]).to_string()) })),
